@@ -45,6 +45,15 @@ class History(object):
     def operand(self, name):
         return self.pool[pick(self.E, name, self.pool, self.st)]
 
+    def arg(self, pl):
+        """the value handed to the API for an LRU: its bytes, or (as_str levels, concrete pools) the
+        str that UTF-8-encodes to those bytes -- the API accepts both"""
+        if self.opts.get("as_str"):
+            items = getattr(pl.lru, "items", None)
+            raw = bytes(items) if items is not None else bytes(pl.lru)
+            return raw.decode("utf-8")
+        return pl.lru
+
     def prefix_operand(self, name):
         pl = self.operand(name)
         if len(pl.stems) == 1:
@@ -128,7 +137,7 @@ class History(object):
         E = self.E
         a = self.operand(n + ".a")
         crawled = E.flag(n + ".crawled")
-        ok, rep = E.call("add_page", self.t.add_page, a.lru, crawled=crawled)
+        ok, rep = E.call("add_page", self.t.add_page, self.arg(a), crawled=crawled)
         E.check(ok, "add_page:refused")
         new = 1 if self.ref.insert(E, a, crawled) else 0
         return {"report": rep, "new_pages": new, "pages": [a]}
@@ -138,7 +147,7 @@ class History(object):
         k = self.opts.get("pages_batch", 2)
         ops = [self.operand("%s.a%d" % (n, j)) for j in range(k)]
         crawled = E.flag(n + ".crawled")
-        ok, rep = E.call("add_pages", self.t.add_pages, [a.lru for a in ops], crawled=crawled)
+        ok, rep = E.call("add_pages", self.t.add_pages, [self.arg(a) for a in ops], crawled=crawled)
         E.check(ok, "add_pages:refused")
         new = 0
         for a in ops:
@@ -155,7 +164,7 @@ class History(object):
             s = self.operand("%s.s%d" % (n, j))
             d = self.operand("%s.t%d" % (n, j))
             pairs.append((s, d))
-        ok, rep = E.call("add_links", self.t.add_links, [(s.lru, d.lru) for s, d in pairs])
+        ok, rep = E.call("add_links", self.t.add_links, [(self.arg(s), self.arg(d)) for s, d in pairs])
         E.check(ok, "add_links:refused")
         new = 0
         for s, d in pairs:
@@ -184,7 +193,7 @@ class History(object):
             data.append((s, ts))
         arg = {}
         for s, ts in data:
-            arg[s.lru] = [x.lru for x in ts]
+            arg[self.arg(s)] = [self.arg(x) for x in ts]
         yfs = self.opts.get("yield_frequencies", [50])
         yf = yfs[E.choose(n + ".yf", len(yfs))]
         ok, rep = E.call("index_batch_crawl", self.t.index_batch_crawl, arg, yf)
@@ -207,7 +216,7 @@ class History(object):
         ps = [self.prefix_operand("%s.p%d" % (n, j)) for j in range(k)]
         if k == 2:
             E.assume(E.neg(E.eq(ps[0].lru, ps[1].lru)) if len(ps[0].lru) == len(ps[1].lru) else True)
-        ok, rep = E.call("create_webentity", self.t.create_webentity, [p.lru for p in ps])
+        ok, rep = E.call("create_webentity", self.t.create_webentity, [self.arg(p) for p in ps])
         taken = False
         for p in ps:
             self.ref.name(p)
@@ -230,7 +239,7 @@ class History(object):
         names = self.opts.get("rule_patterns", ["never"])
         rn = names[E.choose(n + ".pat", len(names))]
         pat = NEVER if rn == "never" else RULES[rn]
-        ok, rep = E.call("add_webentity_creation_rule", self.t.add_webentity_creation_rule, p.lru, pat)
+        ok, rep = E.call("add_webentity_creation_rule", self.t.add_webentity_creation_rule, self.arg(p), pat)
         E.check(ok, "add_rule:refused")
         self.ref.name(p)
         self.ref.rules.set(p.lru, rn)
